@@ -70,7 +70,10 @@ def wf_meta(st, m):
             z3.Not(is_absent(fld(st, m, "key"))), z3.Not(is_absent(fld(st, m, "init_overflow_attr"))),
             z3.Not(is_absent(fld(st, m, "owner"))), z3.Not(is_absent(fld(st, m, "post_init"))),
             z3.ForAll([k], z3.Implies(z3.Select(has, k), z3.And(is_str(k), wf_attr(st, z3.Select(dv, k)),
-                                                                fld(st, z3.Select(dv, k), "name") == k)),
+                                                                fld(st, z3.Select(dv, k), "name") == k,
+                                                                # managed attributes are ordinary names, not the library's own slots
+                                                                k != STR.val("__spec_class__"),
+                                                                k != STR.val("__spec_class_initializing__"))),
                       patterns=[z3.Select(has, k)])]
 
 
